@@ -139,6 +139,13 @@ def run(cx):
                 cx.ob("R01a", n, False, "the suffix set is re-bound outside the constructor")
 
     # ------------------------------------------------------------------ R01b
+    # on a copy of parse with its private helpers expanded in place; local names are read through their reaching definitions
+    from sa.inline import inlined as _inl
+    from sa.guards import xnorm_at as _xat
+    parse_o = parse
+    parse, _used_b = _inl(repo.modules[REL], parse_o)
+    if _used_b:
+        cx.note(f"R01b: parse analysed with {_used_b} expanded in place")
     g = CFG(parse)
     mw = next(w for w in parse.body if isinstance(w, ast.While))
     done_if = next((s for s in mw.body if isinstance(s, ast.If) and "len(top.values) == len(cur_prod.production)" in norm(s.test)), None)
@@ -149,7 +156,7 @@ def run(cx):
         suffix_ifs = [s for s in ast.walk(done_if) if isinstance(s, ast.If) and s is not done_if and any(norm(x).endswith("t_elem.value.pop()") for x in s.body)]
     cx.need(len(suffix_ifs) == 1, "R01b", parse, "suffix test in the completion branch")
     sif = suffix_ifs[0]
-    fs = [norm(e) for e, pol in split(sif.test, True) if pol]
+    fs = [_xat(e, sif) for e, pol in split(sif.test, True) if pol]
     ok = "cur_prod.production[-1] in self._suffix_symbols" in fs
     flag = [e for e, pol in split(sif.test, True) if pol and isinstance(e, ast.Attribute) and is_name(e.value, "cur_prod")]
     if not ok and flag:
@@ -172,9 +179,21 @@ def run(cx):
             path = g.reach_avoiding(_S, {hn.id}, {sn.id}, follow_raise=False)
         cx.ob("R01b", h, path is None, "reached only after the suffix test" if path is None else
               f"a completed node can be handed over without the suffix test (lines {[getattr(p.ast, 'lineno', 0) for p in path if getattr(p, 'ast', None) is not None]})")
-    body = [norm(s) for s in sif.body]
-    ok = len(sif.body) == 2 and body[0] == "suffix_elem = t_elem.value.pop()" and isinstance(sif.body[1], ast.If) and norm(sif.body[1].test) == "suffix_elem.value is not None" \
-        and [norm(s) for s in sif.body[1].body] == ["t_elem.value.extend(suffix_elem.value)"]
+    # splice body: X = <node>.value.pop(); if X.value is not None: <node>.value.extend(X.value)      (names are free)
+    ok = False
+    if len(sif.body) == 2 and isinstance(sif.body[0], ast.Assign) and len(sif.body[0].targets) == 1 and isinstance(sif.body[0].targets[0], ast.Name) \
+            and isinstance(sif.body[0].value, ast.Call) and call_name(sif.body[0].value) == "pop" and not sif.body[0].value.args and isinstance(sif.body[1], ast.If):
+        x_ = sif.body[0].targets[0].id
+        node_val = norm(sif.body[0].value.func.value)
+        ok = node_val.endswith(".value") and norm(sif.body[1].test) == f"{x_}.value is not None" and not sif.body[1].orelse \
+            and [norm(s) for s in sif.body[1].body] == [f"{node_val}.extend({x_}.value)"]
+        if ok:
+            # and it is the node that is handed over afterwards
+            nodes = {norm(h.value.args[0]) for h in handovers if isinstance(h, ast.Expr) and h.value.args}
+            ok = node_val[:-len(".value")] in nodes
+    if not ok:
+        calls_ = {call_name(c) for st_ in sif.body for c in ast.walk(st_) if isinstance(c, ast.Call)}
+        cx.need(calls_ <= {"pop", "extend", "append", "insert", "remove", "len", "list"}, "R01b", sif, f"splice body not recognised (calls {sorted(calls_)})")
     cx.ob("R01b", sif, ok, "splice: drop the helper child, append its children (if any) to the parent" if ok else "splice body is not pop() + extend(helper's children)", stmt="splice body")
     # the node handed over is the one spliced; its children are the matched values
     te = [v for _, v in assignments(parse, "t_elem") if v is not None]
@@ -187,6 +206,7 @@ def run(cx):
     ntp = [v for _, v in assignments(parse, "new_token_pos") if v is not None]
     ok = len(ntp) == 1 and norm(ntp[0]) == "top.cur_token_pos"
     cx.ob("R01b", done_if, ok, "the cursor handed over is the completed element's cursor" if ok else "cursor hand-over altered", stmt="cursor")
+    parse = parse_o
 
     # ------------------------------------------------------------------ R01c
     init = repo.method(se, "__init__")
